@@ -7,7 +7,7 @@ verus! {
 pub proof fn lemma_c17_np_wcet(c: int, c2: int, na: spec_fn(int) -> int, hp: spec_fn(int) -> int, b: int, limit: int)
     requires 1 <= c <= c2, forall |x: int| x >= 1 ==> #[trigger] na(x) >= 1
     ensures opt_le(np_spec(c, na, hp, b, limit), np_spec(c2, na, hp, b, limit))
-{
+{ /*@lprobe*/
     assert forall |x: int| x >= 1 implies #[trigger] cn_fn(c, na)(x) <= cn_fn(c2, na)(x) && cn_fn(c, na)(x) - (c - 1) <= cn_fn(c2, na)(x) - (c2 - 1) by {
         let n = na(x);
         assert(c * n <= c2 * n) by { lemma_mul_inequality(c, c2, n); }
@@ -22,7 +22,7 @@ pub proof fn lemma_c17_np_wcet(c: int, c2: int, na: spec_fn(int) -> int, hp: spe
 pub proof fn lemma_c17_lp_wcet(c: int, c2: int, last: int, na: spec_fn(int) -> int, hp: spec_fn(int) -> int, b: int, limit: int)
     requires 1 <= c <= c2, forall |x: int| x >= 1 ==> #[trigger] na(x) >= 0
     ensures opt_le(lp_spec(c, last, na, hp, b, limit), lp_spec(c2, last, na, hp, b, limit))
-{
+{ /*@lprobe*/
     assert forall |x: int| x >= 1 implies #[trigger] cn_fn(c, na)(x) <= cn_fn(c2, na)(x) by { lemma_mul_inequality(c, c2, na(x)); }
     lemma_fpx_mono(cn_fn(c, na), hp, b, last - 1, cn_fn(c2, na), hp, b, last - 1, limit);
 }
@@ -31,7 +31,7 @@ pub proof fn lemma_c17_np_arrivals(c: int, na: spec_fn(int) -> int, na2: spec_fn
     requires c >= 1, forall |x: int| x >= 1 ==> #[trigger] na(x) <= na2(x)
     ensures opt_le(np_spec(c, na, hp, b, limit), np_spec(c, na2, hp, b, limit)),
             forall |last: int| opt_le(#[trigger] lp_spec(c, last, na, hp, b, limit), lp_spec(c, last, na2, hp, b, limit))
-{
+{ /*@lprobe*/
     assert forall |x: int| x >= 1 implies #[trigger] cn_fn(c, na)(x) <= cn_fn(c, na2)(x) by { lemma_mul_inequality(na(x), na2(x), c); lemma_mul_is_commutative(c, na(x)); lemma_mul_is_commutative(c, na2(x)); }
     lemma_fpx_mono(cn_fn(c, na), hp, b, c - 1, cn_fn(c, na2), hp, b, c - 1, limit);
     assert forall |last: int| opt_le(#[trigger] lp_spec(c, last, na, hp, b, limit), lp_spec(c, last, na2, hp, b, limit)) by {
@@ -42,7 +42,7 @@ pub proof fn lemma_c17_np_arrivals(c: int, na: spec_fn(int) -> int, na2: spec_fn
 pub proof fn lemma_c17_fp_tua(tua: spec_fn(int) -> int, tua2: spec_fn(int) -> int, hp: spec_fn(int) -> int, b: int, limit: int)
     requires forall |x: int| x >= 1 ==> #[trigger] tua(x) <= tua2(x)
     ensures opt_le(fp_spec(tua, hp, limit), fp_spec(tua2, hp, limit)), opt_le(fl_spec(tua, hp, b, limit), fl_spec(tua2, hp, b, limit))
-{
+{ /*@lprobe*/
     lemma_fpx_mono(tua, hp, 0, 0, tua2, hp, 0, 0, limit);
     lemma_fpx_mono(tua, hp, b, 0, tua2, hp, b, 0, limit);
 }
@@ -54,7 +54,7 @@ pub proof fn lemma_c17_interference(tua: spec_fn(int) -> int, hp: spec_fn(int) -
             opt_le(fl_spec(tua, hp, b, limit), fl_spec(tua, hp2, b2, limit)),
             opt_le(np_spec(c, na, hp, b, limit), np_spec(c, na, hp2, b2, limit)),
             opt_le(lp_spec(c, last, na, hp, b, limit), lp_spec(c, last, na, hp2, b2, limit)),
-{
+{ /*@lprobe*/
     lemma_fpx_mono(tua, hp, 0, 0, tua, hp2, 0, 0, limit);
     lemma_fpx_mono(tua, hp, b, 0, tua, hp2, b2, 0, limit);
     lemma_fpx_mono(cn_fn(c, na), hp, b, c - 1, cn_fn(c, na), hp2, b2, c - 1, limit);
@@ -64,7 +64,7 @@ pub proof fn lemma_c17_interference(tua: spec_fn(int) -> int, hp: spec_fn(int) -
 pub proof fn lemma_c17_added_task<B: RequestBound>(hp: Seq<B>, extra: B, x: int)
     requires extra.wf(), x >= 0
     ensures hp_fn(hp)(x) <= hp_fn(hp.push(extra))(x)
-{
+{ /*@lprobe*/
     extra.rbf_props();
     assert(hp.push(extra).drop_last() =~= hp);
     assert(extra.rbf(0) <= extra.rbf(x));
@@ -76,7 +76,7 @@ pub proof fn lemma_c17_limit(tua: spec_fn(int) -> int, hp: spec_fn(int) -> int, 
             fl_spec(tua, hp, b, limit).is_some() ==> fl_spec(tua, hp, b, limit2) == fl_spec(tua, hp, b, limit),
             np_spec(c, na, hp, b, limit).is_some() ==> np_spec(c, na, hp, b, limit2) == np_spec(c, na, hp, b, limit),
             lp_spec(c, last, na, hp, b, limit).is_some() ==> lp_spec(c, last, na, hp, b, limit2) == lp_spec(c, last, na, hp, b, limit),
-{
+{ /*@lprobe*/
     if fp_spec(tua, hp, limit).is_some() { lemma_fpx_limit(tua, hp, 0, 0, limit, limit2); }
     if fl_spec(tua, hp, b, limit).is_some() { lemma_fpx_limit(tua, hp, b, 0, limit, limit2); }
     if np_spec(c, na, hp, b, limit).is_some() { lemma_fpx_limit(cn_fn(c, na), hp, b, c - 1, limit, limit2); }
@@ -86,7 +86,7 @@ pub proof fn lemma_c17_limit(tua: spec_fn(int) -> int, hp: spec_fn(int) -> int, 
 pub proof fn lemma_c17_sporadic_harder(t: int, j: int, t2: int, j2: int, d: int)
     requires 1 <= t2 <= t, 0 <= j <= j2, d >= 0
     ensures na_sporadic(t, j, d) <= na_sporadic(t2, j2, d)
-{
+{ /*@lprobe*/
     if d > 0 {
         let a = d + j2;
         lemma_ceil_div(a, t); lemma_ceil_div(a, t2);
@@ -105,19 +105,19 @@ pub proof fn lemma_c17_sporadic_harder(t: int, j: int, t2: int, j2: int, d: int)
 /// limited-preemptive FP with last segment 1 and no blocking == fully preemptive FP (on the same RBF)
 pub proof fn lemma_c19_lp_last1_is_fp(c: int, na: spec_fn(int) -> int, hp: spec_fn(int) -> int, limit: int)
     ensures lp_spec(c, 1, na, hp, 0, limit) == fp_spec(cn_fn(c, na), hp, limit)
-{}
+{ /*@lprobe*/}
 /// limited-preemptive FP with last segment == WCET == fully non-preemptive FP
 pub proof fn lemma_c19_lp_lastc_is_np(c: int, na: spec_fn(int) -> int, hp: spec_fn(int) -> int, b: int, limit: int)
     ensures lp_spec(c, c, na, hp, b, limit) == np_spec(c, na, hp, b, limit)
-{}
+{ /*@lprobe*/}
 /// floating non-preemptive FP == limited-preemptive FP with last segment 1
 pub proof fn lemma_c19_floating_is_lp_last1(c: int, na: spec_fn(int) -> int, hp: spec_fn(int) -> int, b: int, limit: int)
     ensures fl_spec(cn_fn(c, na), hp, b, limit) == lp_spec(c, 1, na, hp, b, limit)
-{}
+{ /*@lprobe*/}
 /// the RBF object built inside the NP/LP analyses denotes cn_fn (so the coincidences apply to the values the code returns)
 pub proof fn lemma_c19_rbf_is_cn<AB: ArrivalBound>(x: RBF<AB, Scalar>)
     ensures rbf_fn(&x) =~= cn_fn(x.wcet.wcet.v(), na_fn(&x.arrival_bound))
-{
+{ /*@lprobe*/
     assert forall |d: int| #[trigger] rbf_fn(&x)(d) == cn_fn(x.wcet.wcet.v(), na_fn(&x.arrival_bound))(d) by {}
 }
 
